@@ -9,6 +9,8 @@
 //              onUpgradedData) or --exact 0 (over loopback)                    (c18_server.hpp)
 //   client     real WebSocketClient + raw-socket server                        (c18_client.hpp)
 //   closerace  sendText/sendBinary loops racing the close handshake            (c18_race.hpp)
+//   abandon    peers that drop the TCP connection in the middle of a frame: the bytes they left
+//              behind must not stay allocated                                  (c18_race.hpp)
 //
 // case file (--cases FILE), one case per line, TAB separated:
 //   id  side(s|c)  kind(v|u|t|h|m)  hclass  cfgmax  expectWire  segspec  streamHex
@@ -40,6 +42,7 @@ int main(int argc, char **argv)
   if (mode == "server") return c18::runServer(args);
   if (mode == "client") return c18::runClient(args);
   if (mode == "closerace") return c18::runRace(args);
+  if (mode == "abandon") return c18::runAbandon(args);
   fprintf(stderr, "unknown --mode %s\n", mode.c_str());
   return 2;
 }
